@@ -283,14 +283,10 @@ Proof.
     specialize (IH _ _ _ H1). cbv zeta in IH. rewrite <- app_assoc in IH. exact IH.
 Qed.
 
-(* a script step is safe unless it is a shrinking setbuf on a fully buffered device *)
-Definition step_safe (r : resp) (o : op) : Prop :=
-  match o with OSetbuf neg n => setbuf_safe (r_dev r) (if neg then r_defbuf r else n) | _ => True end.
-
-Lemma step_post f0 async body r c o : Post f0 async body r c -> step_safe r o ->
+Lemma step_post f0 async body r c o : Post f0 async body r c ->
   let res := step r c o in Post f0 async (body ++ obytes o) (fst res) (snd res).
 Proof.
-  intros HP Hs. pose proof (p_out _ _ _ _ _ HP) as Ho. pose proof (p_ok _ _ _ _ _ HP) as Hk.
+  intros HP. pose proof (p_out _ _ _ _ _ HP) as Ho. pose proof (p_ok _ _ _ _ _ HP) as Hk.
   destruct o; cbn [step obytes]; rewrite ?resp_out_done by exact Ho; cbv zeta.
   - (* OWrite *)
     destruct (r_copy_on r) eqn:EC.
@@ -308,9 +304,9 @@ Proof.
       destruct (dev_sync (r_dev r) c) as [d c1]. cbn [fst snd]. rewrite <- (app_nil_r body).
       apply (Post_conserves f0 async body r c (d, c1) [] HP H HJ). reflexivity.
   - (* OSetbuf *)
-    rewrite app_nil_r. rewrite Ho. cbn [step_safe] in Hs.
+    rewrite app_nil_r. rewrite Ho.
     set (size := if neg then r_defbuf r else n) in *.
-    pose proof (dev_setbuf_spec (r_dev r) c size Hk Hs) as H. pose proof (Jp_dev_setbuf (r_dev r) c size) as HJ.
+    pose proof (dev_setbuf_spec (r_dev r) c size Hk) as H. pose proof (Jp_dev_setbuf (r_dev r) c size) as HJ.
     destruct (dev_setbuf (r_dev r) c size) as [d c1]. cbn [fst snd].
     set (r1 := mkResp _ _ _ _ _ _ _ _ _).
     assert (HP1 : Post f0 async body r1 c) by (eapply Post_ext; [exact HP|symmetry; exact Ho| | |]; reflexivity).
@@ -341,20 +337,14 @@ Proof.
     + exists (k + 1)%nat. unfold eofs in *. rewrite async_write_trace, map_app, Pt, repeat_app. reflexivity.
 Qed.
 
-Fixpoint ops_safe (r : resp) (c : conn) (ops : list op) : Prop :=
-  match ops with
-  | [] => True
-  | o :: t => step_safe r o /\ (let (r1, c1) := step r c o in ops_safe r1 c1 t)
-  end.
-
-Lemma run_ops_post f0 async : forall ops body r c, Post f0 async body r c -> ops_safe r c ops ->
+Lemma run_ops_post f0 async : forall ops body r c, Post f0 async body r c ->
   let res := run_ops r c ops in Post f0 async (body ++ concat (map obytes ops)) (fst res) (snd res).
 Proof.
-  induction ops as [|o t IH]; intros body r c HP Hs; cbn [run_ops map concat].
+  induction ops as [|o t IH]; intros body r c HP; cbn [run_ops map concat].
   - cbn [fst snd]. now rewrite app_nil_r.
-  - destruct Hs as [H1 H2]. pose proof (step_post f0 async body r c o HP H1) as HS. cbv zeta in HS.
+  - pose proof (step_post f0 async body r c o HP) as HS. cbv zeta in HS.
     destruct (step r c o) as [r1 c1]. cbn [fst snd] in HS.
-    specialize (IH _ _ _ HS H2). cbv zeta in IH. now rewrite <- app_assoc in IH.
+    specialize (IH _ _ _ HS). cbv zeta in IH. now rewrite <- app_assoc in IH.
 Qed.
 
 (* ---------------------------------------------------------------- finalize + completion *)
@@ -553,13 +543,13 @@ Proof.
 Qed.
 
 Lemma whole_done async : forall ops r c,
-  PreI async r -> k_err c = false -> k_trace c = [] -> sent c = [] -> ops_safe r c ops ->
+  PreI async r -> k_err c = false -> k_trace c = [] -> sent c = [] ->
   let f0 := set_response_headers (k_fmt c) (hdrs_at_out (r_hdrs r) ops) (r_version r) in
   let res := whole r c ops in
   Done f0 (concat (map obytes ops)) (snd res) /\
   (r_copy_on (fst res) = true -> c_all (r_cpy (fst res)) = concat (map obytes ops)).
 Proof.
-  induction ops as [|o t IH]; intros r c HPre He Ht Hs Hsafe.
+  induction ops as [|o t IH]; intros r c HPre He Ht Hs.
   - cbn [hdrs_at_out map concat]. unfold whole. cbn [run_ops]. rewrite finish_out.
     pose proof (out_post async r c HPre He Ht Hs) as HP. cbv zeta in HP.
     pose proof (finish_done _ _ _ _ _ HP) as HF. cbv zeta in HF. destruct HF as [HD HC].
@@ -570,18 +560,14 @@ Proof.
       pose proof (out_post async r c HPre He Ht Hs) as HP. cbv zeta in HP.
       unfold whole. cbn [run_ops]. rewrite (step_out r c o EO).
       set (r1 := fst (resp_out r c)) in *. set (c1 := snd (resp_out r c)) in *.
-      assert (Hsafe1 : ops_safe r1 c1 (o :: t)).
-      { cbn [ops_safe] in *. destruct Hsafe as [_ H2]. rewrite (step_out r c o EO) in H2. fold r1 c1 in H2.
-        split; [destruct o; try discriminate; exact I|exact H2]. }
-      pose proof (run_ops_post _ async (o :: t) [] r1 c1 HP Hsafe1) as HR. cbv zeta in HR. cbn [run_ops app] in HR.
+      pose proof (run_ops_post _ async (o :: t) [] r1 c1 HP) as HR. cbv zeta in HR. cbn [run_ops app] in HR.
       destruct (step r1 c1 o) as [r2 c2]. destruct (run_ops r2 c2 t) as [r3 c3]. cbn [fst snd] in HR.
       pose proof (finish_done _ _ _ _ _ HR) as HF. cbv zeta in HF. destruct HF as [HD HC].
       cbv zeta. split; [exact HD|].
       intros Hfl. apply HC. destruct (finish_copy_on r3 c3 (p_out _ _ _ _ _ HR)) as [E _]. now rewrite <- E.
     + destruct (pre_step async r c o HPre EO) as (r' & Es & HPre' & Hh & Hv & Hdef).
       unfold whole. cbn [run_ops]. rewrite Es.
-      cbn [ops_safe] in Hsafe. destruct Hsafe as [_ H2]. rewrite Es in H2.
-      specialize (IH r' c HPre' He Ht Hs H2). cbv zeta in IH. rewrite Hh, Hv in IH.
+      specialize (IH r' c HPre' He Ht Hs). cbv zeta in IH. rewrite Hh, Hv in IH.
       cbn [map concat]. assert (Eb : obytes o = []) by (destruct o; try discriminate; reflexivity).
       rewrite Eb. cbn [app]. exact IH.
 Qed.
